@@ -17,12 +17,13 @@ Perms(S, k) == IF k = 0 THEN { <<>> } ELSE UNION { { <<x>> \o t : t \in Perms(S 
 KL_c09_3 == UNION { Perms(Pool, k) : k \in 1..3 }
 KL_c09_4 == UNION { Perms(Pool, k) : k \in 1..4 }
 
-FaultOps == {"none", "dupEchBefore", "dupEchAfter", "eoeInOuter", "innerTypeInOuter", "badEchType", "emptyEnc", "sniNotPublic", "noOuterSni", "noInnerEch", "outerTypeInInner",
+FaultOps == {"none", "dupEchBefore", "dupEchInnerBefore", "dupEchAfter", "eoeInOuter", "innerTypeInOuter", "badEchType", "emptyEnc", "sniNotPublic", "noOuterSni", "noInnerEch", "outerTypeInInner",
              "innerNo13", "innerNoSv", "nonZeroPad", "eoeOdd", "eoeBadLen", "eoeOutOfOrder", "eoeRepeated", "eoeMissing", "eoeRefsEch",
              "eoeRefsEoe", "eoeTwice", "eoeRefsSni"}
-TamperOps == {"none", "dupEchBefore", "dupEchAfter"} \cup Tampers
+TamperOps == {"none", "dupEchBefore", "dupEchInnerBefore", "dupEchAfter"} \cup Tampers
 PassOpsC == {"none", "noEch", "grease", "no13", "noSv"}
 NoneOp == {"none"}
+StructOps == {"structOuter", "structInner"}
 OneKey == {"K1"}
 C09Clients == {"K1", "K3", "K5"}
 Pad2 == {"none", "zeros"}
